@@ -9,6 +9,7 @@ import logging
 import os
 import pickle
 import random
+import re
 import sys
 import types
 
@@ -484,8 +485,16 @@ def run_sim(repo, paths, cfg, decisions=None, keep_trace=True):
 # oracles (DESIGN.md section 7)
 # ------------------------------------------------------------------------------------------------
 
+_RN = re.compile(r"\trn:i:(\d+)(?:\t|$)")
+
+
 def col1(text):
-    return [ln.split("\t", 1)[0] for ln in text.splitlines()]
+    """identity of every output record: its rn:i:<n> tag (as r<n>), else its first column"""
+    out = []
+    for ln in text.splitlines():
+        m = _RN.search(ln)
+        out.append("r" + m.group(1) if m else ln.split("\t", 1)[0])
+    return out
 
 
 def judge_c11(r, ref_out, names):
